@@ -99,6 +99,9 @@ def richardson_obligations(R, reg, src, orders):
     # base method shortened the first pass, in either time direction
     for it in (2, 3, 4, 5):
         RE.verify_common_interval(src, reg, it, prop=PID)
+    # the weights below are extracted with the closure variable richardson_iter bound to the number of levels: the factory hands out, for
+    # k requested levels, the class it defined in that call, closed over k and the given basis (not one left by an earlier call)
+    R.under_contract(RE.check_factory(src, reg, PID))
     for p in orders:
         for it in (2, 3, 4, 5):
             try:
